@@ -69,24 +69,25 @@ CLAIMED = {
 }
 # additions after the second seeding wave (DESIGN.md §4b); appended to the level text
 ADDENDA = {
-    "C01": " Evaluated on the sync and the async world (A/ obligations). Also: the stream route of copy/move opens the source before it creates the destination; optional native two-path operations of the in-memory backend must establish destination-parent-is-a-directory themselves; PhysicalFS::exists never fails. remove_dir_all returns Ok only after remove_dir(self); append_file leaves the stored entry untouched; a write handle is built only after all fallible checks; merged-listing rules.",
-    "C02": " Also: PhysicalFS::exists has no Err return (the map lookup cannot fail), the in-memory read/write handles satisfy the cursor rules of C14, the stream copy route opens the source before creating the destination. The guard-set comparison and the not-found class rule also run on the async pair; FileNotFound is built only on lookup misses; PhysicalFS::move_dir maps every rename failure to NotSupported; the PhysicalFS translator gate (host-valid names reach the OS unchanged).",
-    "C03": " Evaluated on both worlds. Also: merged-listing rules (what a listing hides is exactly what was removed), source-before-destination in the stream copy route, two-path row of Table M (whole-map replacement counts as insertion). Check and mutation of the in-memory backends share one critical section (R16.1/R16.5/R16.6 imported); copy_dir/move_dir create directories through the path type.",
-    "C04": " Evaluated on both worlds (async writer publication incl. the flush clause, async copy-up direction, async session start/length/routing). The writer's buffer is moved out only on the drop path (close-then-drop cannot publish an emptied buffer); whatever a write session or an overlay copy creates ends with the path's deletion marker absent. The whole buffer is published (no slice/truncation); reader seek bases.",
-    "C05": " Evaluated on both worlds; native two-path operations of the in-memory backends must place entries below a directory. filename() shape (adapters rebuild listed names with it); lossless name conversion in PhysicalFS::read_dir.",
+    "C14": " Wave 5: handle surface rules; overlay append copy-up.",
+    "C01": " Evaluated on the sync and the async world (A/ obligations). Also: the stream route of copy/move opens the source before it creates the destination; optional native two-path operations of the in-memory backend must establish destination-parent-is-a-directory themselves; PhysicalFS::exists never fails. remove_dir_all returns Ok only after remove_dir(self); append_file leaves the stored entry untouched; a write handle is built only after all fallible checks; merged-listing rules. Wave 5: overlay append_file starts from a complete copy_file copy-up of the resolved file (no hand-made copy, no append after a failed copy-up); generic copy_dir/move_dir routes on the async world; the whole buffer is published on flush.",
+    "C02": " Also: PhysicalFS::exists has no Err return (the map lookup cannot fail), the in-memory read/write handles satisfy the cursor rules of C14, the stream copy route opens the source before creating the destination. The guard-set comparison and the not-found class rule also run on the async pair; FileNotFound is built only on lookup misses; PhysicalFS::move_dir maps every rename failure to NotSupported; the PhysicalFS translator gate (host-valid names reach the OS unchanged). Wave 5: every construction of the in-memory state (new, Default — hand-written or derived, literals) contains the root directory; the in-memory handles override only the required Read/Write/Seek methods and the reader holds no shared state.",
+    "C03": " Evaluated on both worlds. Also: merged-listing rules (what a listing hides is exactly what was removed), source-before-destination in the stream copy route, two-path row of Table M (whole-map replacement counts as insertion). Check and mutation of the in-memory backends share one critical section (R16.1/R16.5/R16.6 imported); copy_dir/move_dir create directories through the path type. Wave 5: every construction of the map holder inserts the root as a Directory.",
+    "C04": " Evaluated on both worlds (async writer publication incl. the flush clause, async copy-up direction, async session start/length/routing). The writer's buffer is moved out only on the drop path (close-then-drop cannot publish an emptied buffer); whatever a write session or an overlay copy creates ends with the path's deletion marker absent. The whole buffer is published (no slice/truncation); reader seek bases. Wave 5: handle surface rules (only required trait methods, reader owns its bytes); overlay append copy-up rules; overlay open_file returns the resolved layer's handle unchanged.",
+    "C05": " Evaluated on both worlds; native two-path operations of the in-memory backends must place entries below a directory. filename() shape (adapters rebuild listed names with it); lossless name conversion in PhysicalFS::read_dir. Wave 5: VfsPath::exists answers with the backend's answer, never a path-dependent constant; altroot translator rules (a translator that refuses a name makes exists and the listing disagree); embedded data asked only after an index hit (found F32).",
     "C06": " join hands its argument to the shared normaliser unchanged (no trimming / prefix stripping in the wrapper), both path types.",
-    "C07": " Shares C06's join pass-through rule (listed children never pass the join wrapper). The PhysicalFS translator joins the path argument itself (at most without its leading '/'): no rewriting after normalisation. The altroot translator builds no error of its own; remove_dir_all removes an adapter's root like any directory.",
+    "C07": " Shares C06's join pass-through rule (listed children never pass the join wrapper). The PhysicalFS translator joins the path argument itself (at most without its leading '/'): no rewriting after normalisation. The altroot translator builds no error of its own; remove_dir_all removes an adapter's root like any directory. Wave 5: the rename fallback of move_dir is checked per return arm.",
     "C08": " Also: a copy-up is an independent copy — (Async)PhysicalFS::copy_file performs exactly fs::copy (no hard link / rename). The in-crate backends' observing methods issue no mutating call (known finding: MemoryFS::open_file bumps the access time); native fast paths of the path layer run only under Arc::ptr_eq. The constructor stores the layers as given.",
-    "C09": " Evaluated on both worlds (Table U, resolver, listing, materialisation, marker protocol of AsyncOverlayFS). Layer paths are joined relative to the layer; the listing starts with a resolver lookup and can skip a shadowed non-directory entry; append_file resolves its target before materialising parents; materialisation depends only on the union lookup.",
-    "C10": " Evaluated on both worlds; remove_dir_all dispatches children by their own type and removes the directory last. Layer/marker paths are joined relative to the write layer; an overlay override of copy_file/move_file/move_dir must leave the destination's marker absent. exists answers positively only past the marker; a failed marker read fails the listing.",
-    "C11": " Evaluated on both worlds; source opened before destination created in the stream route; two-path row of Table M.",
-    "C12": " with_path stores its argument unconditionally (mutate-self and struct-update shapes). io::Error-carrying kinds are constructed only in error.rs; overlay setters run nothing with another error class in front of the delegation; async PhysicalFS create_dir classification. io NotFound normalisation is unconditional; overlay create_dir kinds follow the union entry.",
-    "C16": " Evaluated on MemoryFS (std RwLock) and AsyncMemoryFS (async_std RwLock: guard holder found by type, regions across .await). Also: a removal/insertion is decided inside its own critical section (lookup under the same guard or own outcome checked); publication happens before flush/drop returns. An async guard is not held across an await (other than always-ready in-memory Cursor operations). Hand-out operations leave no intermediate state (append_file does not touch the stored entry; a write handle is built last).",
+    "C09": " Evaluated on both worlds (Table U, resolver, listing, materialisation, marker protocol of AsyncOverlayFS). Layer paths are joined relative to the layer; the listing starts with a resolver lookup and can skip a shadowed non-directory entry; append_file resolves its target before materialising parents; materialisation depends only on the union lookup. Wave 5: append_file row of Table U (copy-up is copy_file, direction resolved layer -> upper, never appended to after a failure); a failed materialisation is propagated with `?`.",
+    "C10": " Evaluated on both worlds; remove_dir_all dispatches children by their own type and removes the directory last. Layer/marker paths are joined relative to the write layer; an overlay override of copy_file/move_file/move_dir must leave the destination's marker absent. exists answers positively only past the marker; a failed marker read fails the listing. Wave 5: append_file row of Table U on both worlds.",
+    "C11": " Evaluated on both worlds; source opened before destination created in the stream route; two-path row of Table M. Wave 5: copy_dir/move_dir refuse nothing but an existing destination; the destination is created only after the source was opened.",
+    "C12": " with_path stores its argument unconditionally (mutate-self and struct-update shapes). io::Error-carrying kinds are constructed only in error.rs; overlay setters run nothing with another error class in front of the delegation; async PhysicalFS create_dir classification. io NotFound normalisation is unconditional; overlay create_dir kinds follow the union entry. Wave 5: a failing occupant probe in PhysicalFS::create_dir does not replace the exists-kind; a failed parent materialisation of the overlay is propagated unchanged.",
+    "C16": " Evaluated on MemoryFS (std RwLock) and AsyncMemoryFS (async_std RwLock: guard holder found by type, regions across .await). Also: a removal/insertion is decided inside its own critical section (lookup under the same guard or own outcome checked); publication happens before flush/drop returns. An async guard is not held across an await (other than always-ready in-memory Cursor operations). Hand-out operations leave no intermediate state (append_file does not touch the stored entry; a write handle is built last). Wave 5: handle surface rules (a reader that keeps the lock/Arc can observe two versions); Table M insert guards use the method's real argument.",
     "C17": " Evaluated on both worlds for backends and adapters. Also: the DirectoryExists tolerance is unconditional (no Err return reachable from that arm before the next attempt); PhysicalFS's occupant probe runs after the failed mkdir. The overlay's create and unmark must share a critical section (known finding F31); exists marker-first; create_dir_all slicing sites.",
-    "C13": " The callee table includes integer methods that inherit the caller's overflow checks (iN::abs, pow, div_euclid, ...).",
-    "C18": " The normalising step strips exactly the leading separator; EmbeddedFS values are built only by the index builder (no derived/second constructor). Inherited trait defaults only answer NotSupported; exists/read_dir are decided by the index maps only.",
-    "C19": " Evaluated on both worlds. Also: exact round-trip shape (stored = argument, reported = field, up to Some/Into/Clone — no filter or sentinel); an overlay setter that copies up must carry the other timestamps over. PhysicalFS::metadata reports Metadata::modified/created/accessed(..).ok() unconverted.",
-    "C20": " Also: the kind create_dir_all tolerates (DirectoryExists) is built only under a positive directory test of the occupant (overlay, memory, physical; both worlds); stream typestate of the async walk (failed future not kept, error item yielded once). Iterator::flatten over Result items is a discarding consumer. Awaited/moved Results that are only dropped (`let _ = fut.await`) are discarding; the stream route writes to the destination's own handle (no unflushed buffering wrapper).",
+    "C13": " The callee table includes integer methods that inherit the caller's overflow checks (iN::abs, pow, div_euclid, ...). Wave 5: indexing sites of the async overlay's private helpers are inventoried under their entry points.",
+    "C18": " The normalising step strips exactly the leading separator; EmbeddedFS values are built only by the index builder (no derived/second constructor). Inherited trait defaults only answer NotSupported; exists/read_dir are decided by the index maps only. Wave 5: open_file/metadata ask the embedded data only after a hit in the index (found F32, fixed a0fc671); create_dir_all tolerates exactly DirectoryExists (a read-only backend's NotSupported surfaces).",
+    "C19": " Evaluated on both worlds. Also: exact round-trip shape (stored = argument, reported = field, up to Some/Into/Clone — no filter or sentinel); an overlay setter that copies up must carry the other timestamps over. PhysicalFS::metadata reports Metadata::modified/created/accessed(..).ok() unconverted. Wave 5: the setters hand the caller's SystemTime to filetime through FileTime::from, followed through private helpers.",
+    "C20": " Also: the kind create_dir_all tolerates (DirectoryExists) is built only under a positive directory test of the occupant (overlay, memory, physical; both worlds); stream typestate of the async walk (failed future not kept, error item yielded once). Iterator::flatten over Result items is a discarding consumer. Awaited/moved Results that are only dropped (`let _ = fut.await`) are discarding; the stream route writes to the destination's own handle (no unflushed buffering wrapper). Wave 5: overlay open_file delegation unchanged; async move_file removal per call ordinal.",
 }
 NA_REASON = "check not implemented yet (build in progress); design in DESIGN.md"
 
